@@ -1,3 +1,136 @@
-(* C17 — placeholder while the proofs are being built *)
-From Coq Require Import String List Bool.
-From LNML Require Import Model.Refs.
+(* C17 — Resolving external morphology/biophysics references embeds independent copies.
+   Model: Model/Refs.v (fix_doc true = utils.fix_external_morphs_biophys_in_cell after
+   fixes/C17-cell2capools.patch; fix_doc false = before it).  copy.deepcopy (dcopy) and the include loader
+   (load) are arbitrary functions satisfying the hypotheses written out in every statement: equal value,
+   same id, only new identities for a copy; fresh identities and reproducible values for a load. *)
+From Coq Require Import String List Bool ZArith Arith.
+From LNML Require Import Model.Refs Proofs.RefsP Proofs.RefsP2.
+Import ListNotations.
+
+(* in place (overwrite=True): every referring cell (cells and cell2_ca_poolses) gets a copy of the
+   definition in force - included files in order, then the document, later definitions winning - equal in
+   value, built from new objects only, and the reference is cleared; a slot that embeds already or refers to
+   nothing is left as it is; nothing else in the heap changes; the returned document is the one passed in *)
+Theorem C17_embeds_copies : forall (obj : Type) (oid : obj -> string) (V : Type) (val : obj -> V)
+    (locs : obj -> list nat) (dcopy : nat -> obj -> obj * nat)
+    (load : nat -> string -> option (list obj * list obj * nat)),
+  (forall n o, val (fst (dcopy n o)) = val o) ->
+  (forall n o, oid (fst (dcopy n o)) = oid o) ->
+  (forall n o l, In l (locs (fst (dcopy n o))) -> n <= l < snd (dcopy n o)) ->
+  (forall n o, NoDup (locs (fst (dcopy n o)))) ->
+  (forall n o, n <= snd (dcopy n o)) ->
+  (forall n i ms bs n', load n i = Some (ms, bs, n') -> n <= n') ->
+  forall (h : heap obj) (d : docr obj) (n : nat) (h' : heap obj) (d' : docr obj) (n' : nat),
+  NoDup (RefsP.all_cells obj d) ->
+  fix_doc obj oid dcopy load true h d n true = ROk h' d' n' ->
+  d' = d /\
+  exists ms bs n1,
+    load_all obj load (d_incs d) n = Some (ms, bs, n1) /\ n <= n1 /\ n1 <= n' /\
+    (forall l, ~ In l (RefsP.all_cells obj d) -> h' l = h l) /\
+    (forall l, In l (RefsP.all_cells obj d) ->
+       cell_embeds obj oid V val locs (ms ++ d_morphs d) (bs ++ d_bios d) n1 n' (h l) (h' l)).
+Proof. exact fix_overwrite_spec. Qed.
+Print Assumptions C17_embeds_copies.
+
+(* independence: afterwards no object is shared between two embedded subtrees, and every new object is
+   younger than everything that existed before the call and than the documents read for the includes - so
+   a copy shares nothing with the referenced element or with another copy *)
+Theorem C17_copies_independent : forall (obj : Type) (oid : obj -> string) (V : Type) (val : obj -> V)
+    (locs : obj -> list nat) (dcopy : nat -> obj -> obj * nat)
+    (load : nat -> string -> option (list obj * list obj * nat)),
+  (forall n o, val (fst (dcopy n o)) = val o) ->
+  (forall n o, oid (fst (dcopy n o)) = oid o) ->
+  (forall n o l, In l (locs (fst (dcopy n o))) -> n <= l < snd (dcopy n o)) ->
+  (forall n o, NoDup (locs (fst (dcopy n o)))) ->
+  (forall n o, n <= snd (dcopy n o)) ->
+  (forall n i ms bs n', load n i = Some (ms, bs, n') -> n <= n') ->
+  (forall n i ms bs n', load n i = Some (ms, bs, n') ->
+     forall o, In o (ms ++ bs) -> forall x, In x (locs o) -> n <= x < n') ->
+  forall (h : heap obj) (d : docr obj) (n : nat) (h' : heap obj) (d' : docr obj) (n' : nat),
+  NoDup (RefsP.all_cells obj d) ->
+  NoDup (emb_locs obj locs h (RefsP.all_cells obj d)) ->
+  (forall x, In x (emb_locs obj locs h (RefsP.all_cells obj d)) -> x < n) ->
+  fix_doc obj oid dcopy load true h d n true = ROk h' d' n' ->
+  NoDup (emb_locs obj locs h' (RefsP.all_cells obj d)) /\
+  exists ms bs n1,
+    load_all obj load (d_incs d) n = Some (ms, bs, n1) /\
+    (forall x, In x (emb_locs obj locs h' (RefsP.all_cells obj d)) ->
+       In x (emb_locs obj locs h (RefsP.all_cells obj d)) \/ n1 <= x < n') /\
+    (forall o, In o (ms ++ bs) -> forall x, In x (locs o) -> x < n1).
+Proof. exact fix_overwrite_independent. Qed.
+Print Assumptions C17_copies_independent.
+
+(* KeyError exactly when some reference has no definition (the includes being readable) *)
+Theorem C17_dangling_iff_keyerror : forall (obj : Type) (oid : obj -> string)
+    (dcopy : nat -> obj -> obj * nat) (load : nat -> string -> option (list obj * list obj * nat))
+    (h : heap obj) (d : docr obj) (n : nat) (ms bs : list obj) (n1 : nat),
+  NoDup (RefsP.all_cells obj d) ->
+  load_all obj load (d_incs d) n = Some (ms, bs, n1) ->
+  let ok := forall l, In l (RefsP.all_cells obj d) ->
+              slot_defined obj oid (ms ++ d_morphs d) (k_m (h l)) /\
+              slot_defined obj oid (bs ++ d_bios d) (k_b (h l)) in
+  (ok <-> exists h' n', fix_doc obj oid dcopy load true h d n true = ROk h' d n') /\
+  (~ ok <-> exists h', fix_doc obj oid dcopy load true h d n true = RKeyErr h').
+Proof. exact fix_overwrite_keyerror. Qed.
+Print Assumptions C17_dangling_iff_keyerror.
+
+(* overwrite=False: whatever the outcome, every object that existed before the call is as it was *)
+Theorem C17_overwrite_false_leaves_input : forall (obj : Type) (oid : obj -> string) (V : Type) (val : obj -> V)
+    (dcopy : nat -> obj -> obj * nat) (load : nat -> string -> option (list obj * list obj * nat)),
+  (forall n o, val (fst (dcopy n o)) = val o) ->
+  (forall n o, oid (fst (dcopy n o)) = oid o) ->
+  (forall n o, n <= snd (dcopy n o)) ->
+  forall (c2 : bool) (h : heap obj) (d : docr obj) (n : nat),
+  match fix_doc obj oid dcopy load c2 h d n false with
+  | ROk h' _ _ | RKeyErr h' | RExit h' => forall x, x < n -> h' x = h x
+  end.
+Proof. exact fix_false_frame. Qed.
+Print Assumptions C17_overwrite_false_leaves_input.
+
+(* ... and the outcome and the value of the returned document are those of the in-place call *)
+Theorem C17_overwrite_false_same_result : forall (obj : Type) (oid : obj -> string) (V : Type) (val : obj -> V)
+    (dcopy : nat -> obj -> obj * nat) (load : nat -> string -> option (list obj * list obj * nat)),
+  (forall n o, val (fst (dcopy n o)) = val o) ->
+  (forall n o, oid (fst (dcopy n o)) = oid o) ->
+  (forall n o, n <= snd (dcopy n o)) ->
+  (forall n m i,
+     match load n i, load m i with
+     | Some (ms, bs, _), Some (ms', bs', _) =>
+       map (ov obj oid V val) ms = map (ov obj oid V val) ms' /\
+       map (ov obj oid V val) bs = map (ov obj oid V val) bs'
+     | None, None => True
+     | _, _ => False
+     end) ->
+  forall (h : heap obj) (d : docr obj) (n : nat),
+  NoDup (RefsP.all_cells obj d) -> (forall x, In x (RefsP.all_cells obj d) -> x < n) ->
+  resv obj oid V val (fix_doc obj oid dcopy load true h d n false) =
+  resv obj oid V val (fix_doc obj oid dcopy load true h d n true).
+Proof. exact fix_false_same_value. Qed.
+Print Assumptions C17_overwrite_false_same_result.
+
+(* the hypotheses are satisfiable: the instance the correspondence runs (cdcopy, cload) meets all of them *)
+Theorem C17_hypotheses_satisfiable : forall t : ctable,
+  (forall n o, cval (fst (cdcopy n o)) = cval o) /\
+  (forall n o, coid (fst (cdcopy n o)) = coid o) /\
+  (forall n o l, In l (clocs (fst (cdcopy n o))) -> n <= l < snd (cdcopy n o)) /\
+  (forall n o, NoDup (clocs (fst (cdcopy n o)))) /\
+  (forall n o, n <= snd (cdcopy n o)) /\
+  (forall n i ms bs n', cload t n i = Some (ms, bs, n') -> n <= n') /\
+  (forall n i ms bs n', cload t n i = Some (ms, bs, n') ->
+     forall o, In o (ms ++ bs) -> forall x, In x (clocs o) -> n <= x < n').
+Proof.
+  exact (fun t => conj cdcopy_val (conj cdcopy_id (conj cdcopy_fresh (conj cdcopy_nodup (conj cdcopy_mono
+          (conj (cload_mono t) (cload_fresh t))))))).
+Qed.
+Print Assumptions C17_hypotheses_satisfiable.
+
+(* before the patch the property is false for Cell2CaPools cells: the stored witness *)
+Theorem C17_cell2capools_refuted_before_patch :
+  exists h' n',
+    fix_doc cobj coid cdcopy (cload []) false (heap_of w_cells) w_doc 7 true = ROk h' w_doc n' /\
+    In 1 (d_cells2 w_doc) /\
+    last_def cobj coid (d_morphs w_doc) "m0"%string <> None /\
+    k_m (h' 1) = (Some "m0"%string, None) /\ k_b (h' 1) = (Some "b0"%string, None) /\
+    fst (k_m (h' 0)) = None.
+Proof. exact cell2capools_unresolved_before_patch. Qed.
+Print Assumptions C17_cell2capools_refuted_before_patch.
